@@ -45,6 +45,7 @@ type Contract struct {
 	Ensures     []*Clause
 	PanicsIf    []*Clause
 	Captures    []*Clause
+	Unfolds     []*Clause
 	Modifies    []ast.Expr
 	HasModifies bool
 	FreshResult bool
@@ -379,7 +380,7 @@ func (C *Contracts) loadContractFile(path string, pkgPath string, isGo bool) {
 				cur.Trusted = true
 				C.Externs[name] = cur
 			}
-		case "requires", "ensures", "invariant", "panics_if", "captures":
+		case "requires", "ensures", "invariant", "panics_if", "captures", "unfold":
 			cl, err := parseClause(kw, rest, path, ln)
 			if err != nil {
 				errf("%v", err)
@@ -406,6 +407,8 @@ func (C *Contracts) loadContractFile(path string, pkgPath string, isGo bool) {
 				cur.PanicsIf = append(cur.PanicsIf, cl)
 			case "captures":
 				cur.Captures = append(cur.Captures, cl)
+			case "unfold":
+				cur.Unfolds = append(cur.Unfolds, cl)
 			}
 		case "modifies":
 			var items []ast.Expr
